@@ -48,7 +48,7 @@ func pathText(p []PathElem) string {
 // mode of a crossing.
 type mode struct {
 	Explicit bool // `as` / allowCasts=true: scalar conversions bool/int/float permitted
-	JSON     bool // the value is a decoded JSON document: `null` stands for both null and none
+	JSON     bool // the value is a JSON document (model: what parse_json yields): `null` stands for both null and none
 }
 
 type trace struct {
@@ -143,6 +143,9 @@ func conv(v hs.Value, t hs.Type, m mode, tr *trace, chain []string) (hs.Value, b
 				return nil, false
 			}
 			return hs.OptV{Inner: r}, true
+		}
+		if _, ok := v.(hs.NullV); ok && m.JSON {
+			return hs.OptV{}, true // the document `null` under an option type denotes none
 		}
 		if _, ok := v.(hs.NullV); ok {
 			// null is not a T; whether it may stand for `none` is not stated.
@@ -585,8 +588,8 @@ func jsonRepresentable(v hs.Value) bool {
 		return hs.IsFinite(f) && f != math.Trunc(f) && math.Abs(f) < 1e15
 	case hs.BoolV, hs.StrV:
 		return true
-	case hs.OptV:
-		return v.Inner == nil
+	case hs.NullV:
+		return true
 	case *hs.ListV:
 		for _, e := range v.Elems {
 			if !jsonRepresentable(e) {
@@ -618,7 +621,7 @@ func jsonText(v hs.Value) string {
 		return hs.Display(v)
 	case hs.StrV:
 		return jsonQuote(string(v))
-	case hs.OptV:
+	case hs.NullV:
 		return "null"
 	case *hs.ListV:
 		parts := make([]string, len(v.Elems))
